@@ -23,6 +23,21 @@ def _tlc(cfg, name, consts, env=None, workers=8, timeout=3000):
     return r
 
 
+def _significant(toks):
+    """What the properties speak about: which significant token every stretch of the text is, and where.  How a run of blanks and
+    comments is cut into trivia tokens, and how a stretch nothing matches is cut into error tokens, is the lexer's own business:
+    adjacent trivia tokens are one stretch of trivia, adjacent error tokens one erroneous stretch (the specification predicts the
+    cuts too - Tiles and Stable are checked on them - but a lexer that cuts them differently reads the same program)."""
+    out = []
+    for k, s_, e in toks:
+        k = "Trivia" if k in ("Whitespace", "Comment") else k
+        if out and k in ("Trivia", "Error") and out[-1][0] == k and out[-1][2] == s_:
+            out[-1] = (k, out[-1][1], e)
+        else:
+            out.append((k, s_, e))
+    return out
+
+
 def _compare(r, rep, label, stats):
     preds = r.json_prints("LEX")
     if not preds:
@@ -33,8 +48,8 @@ def _compare(r, rep, label, stats):
         stats["texts"] += 1
         if a.get("verdict") in ("panic", "timeout", "abort"):
             continue            # C04 / C12 report crashes; nothing to compare here
-        real = [(t["k"], t["s"], t["e"]) for t in a["tokens"]]
-        want = [(t["k"], t["s"], t["e"]) for t in p["toks"]]
+        real = _significant([(t["k"], t["s"], t["e"]) for t in a["tokens"]])
+        want = _significant([(t["k"], t["s"], t["e"]) for t in p["toks"]])
         stats["tokens"] += len(want)
         for t in want:
             stats["kinds"][t[0]] = stats["kinds"].get(t[0], 0) + 1
@@ -70,7 +85,7 @@ def run(tier, rep, files=(), parts=("chars", "pieces", "files")):
         stats["states"] += r.distinct
         stats["files"] = len(files)
         _compare(r, rep, "files", stats)
-    need = {"Error", "Str", "MultilineStr", "Float32Lit", "Int16Lit", "UInt64Lit", "Comment", "Whitespace", "Ident", "FnKeyword", "WildcardKeyword", "AndAnd", "FatArrow"}
+    need = {"Error", "Str", "MultilineStr", "Float32Lit", "Int16Lit", "UInt64Lit", "Trivia", "Ident", "FnKeyword", "WildcardKeyword", "AndAnd", "FatArrow"}
     if need - set(stats["kinds"]):
         raise ToolError(f"vacuity: the generated texts never produce {sorted(need - set(stats['kinds']))}")
     return stats
